@@ -63,6 +63,12 @@ struct SimulatedCamera
         struct clock throttle;
         int is_running;
         struct thread thread;
+
+        // Guarded by im.lock. simcam_set() must not replace the image buffers
+        // while a frame is being rendered into them.
+        int is_rendering;
+        int set_pending;
+        struct condition_variable idle;
     } streamer;
 
     struct
@@ -238,12 +244,17 @@ simulated_camera_streamer_thread(struct SimulatedCamera* self)
         uint32_t origin[2] = { 0, 0 };
 
         ECHO(lock_acquire(&self->im.lock));
+        // a waiting simcam_set() goes first
+        while (self->streamer.set_pending) {
+            ECHO(condition_variable_wait(&self->streamer.idle, &self->im.lock));
+        }
         while (self->properties.input_triggers.frame_start.enable &&
                !self->software_trigger.triggered) {
             ECHO(condition_variable_wait(&self->software_trigger.trigger_ready,
                                          &self->im.lock));
         }
         self->software_trigger.triggered = 0;
+        self->streamer.is_rendering = 1;
 
         // compute the full resolution shape and offset
         ECHO(compute_full_resolution_shape_and_offset(self, &full, origin));
@@ -285,6 +296,12 @@ simulated_camera_streamer_thread(struct SimulatedCamera* self)
                 h >>= 1;
             }
         }
+
+        // done with the buffers and the properties of this frame
+        ECHO(lock_acquire(&self->im.lock));
+        self->streamer.is_rendering = 0;
+        ECHO(condition_variable_notify_all(&self->streamer.idle));
+        ECHO(lock_release(&self->im.lock));
 
         ++frame_id;
 
@@ -391,6 +408,15 @@ simcam_set(struct Camera* camera, struct CameraProperties* settings)
     enum DeviceStatusCode status = Device_Ok;
 
     ECHO(lock_acquire(&self->im.lock));
+    // The streamer renders outside of the lock, using the shape and binning it
+    // read under the lock and the buffers that get reallocated below: wait
+    // for the frame in flight; the streamer does not begin another meanwhile.
+    ++self->streamer.set_pending;
+    while (self->streamer.is_rendering) {
+        ECHO(condition_variable_wait(&self->streamer.idle, &self->im.lock));
+    }
+    --self->streamer.set_pending;
+
     self->properties = *settings;
     self->properties.pixel_type = settings->pixel_type;
     self->properties.input_triggers = (struct camera_properties_input_triggers_s){
@@ -431,6 +457,7 @@ simcam_set(struct Camera* camera, struct CameraProperties* settings)
     CHECK(self->im.render_data = checked_realloc(self->im.render_data, nbytes));
 
 Finalize:
+    condition_variable_notify_all(&self->streamer.idle);
     lock_release(&self->im.lock);
     return status;
 Error:
@@ -619,6 +646,7 @@ simcam_make_camera(enum BasicDeviceKind kind)
         }
     };
     thread_init(&self->streamer.thread);
+    condition_variable_init(&self->streamer.idle);
     lock_init(&self->im.lock);
     condition_variable_init(&self->im.frame_ready);
     condition_variable_init(&self->software_trigger.trigger_ready);
